@@ -62,8 +62,12 @@ def invalid_literal(dt, tok, rng):
     if dt in ('NM', 'SI', 'DT', 'TM', 'DTM', 'TN') and rng.random() < 0.25:
         return '%s%d' % ('w' * 205, n)      # invalid for the datatype *and* longer than an ST may be
     if dt == 'NM':
+        if rng.random() < 0.3:
+            return '-%016d' % n          # valid number, 17 characters with the sign (max 16)
         return rng.choice(['x%d', '%d..5', 'n%dm']) % n
     if dt == 'SI':
+        if rng.random() < 0.3:
+            return '-%04d' % (n % 10000)          # valid integer, 5 characters with the sign (max 4)
         return rng.choice(['s%d', '%d.5', '1%04d']) % n          # the last one: too long (max 4)
     if dt == 'DT':
         return rng.choice(['%05d' % (n % 100000), '2024%02d%02d' % (13 + n % 80, 1), 'd%d' % n, '202401%02d' % (32 + n % 60)])
